@@ -30,7 +30,10 @@
 (***************************************************************************)
 EXTENDS Naturals, Sequences, FiniteSets
 
-YesKinds  == {"iface", "ifaceGrouped", "generic", "generic2", "instDef", "instDef2", "embed", "empty"}
+\* embedsLocal .. embedsAlias: interfaces that consist ONLY of embedded interfaces (no method of their own): they are
+\* ordinary method-set interfaces (ReadWriter{Reader; Writer}, Named{fmt.Stringer}, CachedRepo[T]{Gen[T]}, ...)
+EmbedOnlyKinds == {"embedsLocal", "embedsStd", "embedsMixed", "embedsGeneric", "embedsInst", "embedsAlias"}
+YesKinds  == {"iface", "ifaceGrouped", "generic", "generic2", "instDef", "instDef2", "embed", "empty"} \cup EmbedOnlyKinds
 FreeKinds == {"instAlias", "namedOver", "aliasOver", "union", "mixed"}
 NoKinds   == {"struct", "func", "aliasStruct", "genStruct", "instStruct", "basic"}
 Kinds     == YesKinds \cup FreeKinds \cup NoKinds
@@ -54,7 +57,7 @@ NameClass(decls, n) == IF HasPkgDecl(decls, n) THEN Class(decls[PkgDecl(decls, n
 \* ------------------------------------------------------------------ code-shaped
 \* node_visitor.go:50-55 -- the syntactic form of the right-hand side
 AstType(kind) ==
-  CASE kind \in {"iface", "ifaceGrouped", "generic", "generic2", "embed", "empty", "union", "mixed"} -> "InterfaceType"
+  CASE kind \in {"iface", "ifaceGrouped", "generic", "generic2", "embed", "empty", "union", "mixed"} \cup EmbedOnlyKinds -> "InterfaceType"
     [] kind \in {"instDef", "instAlias", "instStruct"}                     -> "IndexExpr"
     [] kind = "instDef2"                                                   -> "IndexListExpr"
     [] kind \in {"namedOver", "aliasOver", "aliasStruct", "basic"}         -> "Ident"
